@@ -109,6 +109,7 @@ func c17Rules(p *core.Prog, r *core.Run) {
 	}
 	// the (address, ECH list) pairs Dial works from are those Targets enumerates
 	c15Targets(p, r, "C17.TARGETS")
+	receiverReadOnly(p, r, "C17.PAIR.stateless", m.dial, m.dialOne)
 	all := append(append([]*ssa.Function{}, m.lits...), core.Closures(m.dialOne)...)
 	listF := func(e *core.Expr) bool { return e.Op == "field" && e.Name == "EncryptedClientHelloConfigList" }
 
